@@ -42,6 +42,8 @@ fn describe(e: &error::Error, sources: &[(String, String)]) -> String
 	let mut status = Vec::new();
 	let all_ascii = sources.iter().all(|(_, s)| s.is_ascii());
 	let mut digest: u64 = 0xcbf29ce484222325;
+	// the source lines the plain rendering shows excerpts of (primary and secondary labels)
+	let mut shown: std::collections::BTreeSet<usize> = std::collections::BTreeSet::new();
 	for (color, ascii) in [(false, false), (false, true), (true, false), (true, true)]
 	{
 		match render(e, sources, color, ascii)
@@ -59,6 +61,21 @@ fn describe(e: &error::Error, sources: &[(String, String)]) -> String
 				}
 				let code_tag = format!("{}", e.code());
 				let text = String::from_utf8_lossy(&buf);
+				if !color && ascii
+				{
+					for l in text.lines()
+					{
+						let t = l.trim_start();
+						let digits: String = t.chars().take_while(|c| c.is_ascii_digit()).collect();
+						if !digits.is_empty() && t[digits.len()..].starts_with(" |")
+						{
+							if let Ok(n) = digits.parse::<usize>()
+							{
+								shown.insert(n);
+							}
+						}
+					}
+				}
 				if !color && ascii
 				{
 					// the line the rendered header shows (`-[ file:LINE:COL ]`) must be the reported one
@@ -117,7 +134,7 @@ fn describe(e: &error::Error, sources: &[(String, String)]) -> String
 		}
 	}
 	format!(
-		"{}@{}:{}-{}:{}:{}:{}#{:016x}",
+		"{}@{}:{}-{}:{}:{}:{}#{:016x}%{}",
 		e.code(),
 		loc.source_filename,
 		loc.span.start,
@@ -125,7 +142,8 @@ fn describe(e: &error::Error, sources: &[(String, String)]) -> String
 		loc.line_number,
 		loc.line_offset,
 		if status.is_empty() { "ok".to_string() } else { status.join(",") },
-		digest
+		digest,
+		shown.iter().map(|n| n.to_string()).collect::<Vec<_>>().join(",")
 	)
 }
 
